@@ -243,6 +243,15 @@ def gen_searchspec(ch, cfg: dict) -> SearchSpec:
             s.cons.append({"text": "where " + text, "names": [], "pred": pred, "kind": kind})
         else:
             s.cons.append({"text": "where " + text, "names": names, "pred": (lambda m, names=names, fn=fn: _all(m, names, fn)), "kind": kind})
+    # a module-level Python name read by one constraint is also used as the loop variable of a
+    # comprehension in another constraint of the same spec (two sites that each look fine alone)
+    kinds_ = {c["kind"] for c in s.cons}
+    if ("python-global" in kinds_) != ("comprehension-shadows-global" in kinds_):
+        if "python-global" in kinds_:
+            s.cons.append({"text": "where all(int(str(LIM)) <= 999 for LIM in *<fds>.<fd>)", "names": [], "pred": (lambda m: True), "kind": "comprehension-shadows-global"})
+        else:
+            s.cons.append({"text": "where int(<fa>) <= LIM", "names": ["fa"], "pred": (lambda m: _all(m, ["fa"], lambda a: int(a) <= 900)), "kind": "python-global"})
+        s.h += 1
     order = ch.shuffle(list(range(len(s.cons))), "spec", "cons-order")
     s.cons = [s.cons[i] for i in order]
     n_extra = 0
